@@ -38,7 +38,8 @@ ALPHABET = [
     "delitem", "remove", "delete", "insert", "append", "extend", "items_self", "items_lines",
     "reparse", "copy", "export_import", "shading", "shadow_triple", "delete_shadow",
     "ungroup_ports", "ungroup_ports_group", "ace_ungroup_ports", "tcam", "set_item_seq",
-    "set_remark_text", "set_members", "set_type", "conv_obj", "ag_resequence", "set_note", "set_ports",
+    "set_remark_text", "set_members", "set_type", "conv_obj", "ag_resequence", "set_note", "set_ports", "scribble_ipnets",
+    "foreign_parse",
 ]
 
 BIAS = {
@@ -48,7 +49,8 @@ BIAS = {
             "set_ports": 1, "items_self": 1},
     "C04": {"shadow_triple": 10, "delete_shadow": 3, "shading": 3, "shadow_of": 1, "group": 2,
             "ungroup": 1, "resequence": 1, "insert": 2, "append": 2, "set_platform": 1,
-            "set_members": 5, "copy": 1, "permute_popins": 1, "set_note": 2},
+            "set_members": 5, "copy": 1, "permute_popins": 1, "set_note": 2,
+            "scribble_ipnets": 2},
     "C10": {"resequence": 10, "ag_resequence": 3, "group": 2, "ungroup": 1, "sort": 1,
             "reverse": 1, "insert": 1, "append": 1, "pop": 1, "set_item_seq": 1,
             "permute_popins": 1, "set_platform": 1, "set_note": 2},
@@ -1465,6 +1467,11 @@ class AclMachine(Machine):
             items = sorted(s.sample([21, 22, 25, 80, 443, 8080, 1, 65535], n_))
             return dict(op=kind, i=i, j=j, side=side, operator="eq", items=items,
                         via=s.choice(["items", "line"]))
+        if kind == "scribble_ipnets":
+            cands = [(i, j, side) for i, b in enumerate(m.blocks) for j, r in enumerate(b.rules)
+                     if r.kind == "ace" for side in ("src", "dst")]
+            i, j, side = s.choice(cands) if cands else (0, 0, "src")
+            return dict(op=kind, i=i, j=j, side=side)
         if kind == "set_note":
             return dict(op=kind, i=s.randint(0, 50), j=s.randint(0, 50),
                         note=s.choice(["n1", "keep me", ["a", 1], {"k": "v"}, ""]))
